@@ -254,6 +254,21 @@ def u_fit_names(root):
                 return [("malformed limit specification (unknown name, no bound, non-numeric bound) raises", z3.BoolVal(vw.flow == "raise")), ("nothing was forwarded to the fitter", z3.BoolVal(len(fw) == 0))]
             return [("well-formed limit accepted and forwarded exactly once", z3.BoolVal(vw.flow != "raise" and len(fw) == 1))]
         body(eng, "FitBase", "limit_parameter", None, [], [post], init, tag=f"({name},{lo},{hi})")
+    # unlimit_parameter: the same rule for the name
+    for name, bad in (("a", False), ("nope", True)):
+        rec = {}
+
+        def init(e, st, me_, name=name, rec=rec):
+            rec.clear()
+            e.write_field(st, me_, "_fitter", VExternal("fitter", rec))
+            return {"name": VStr(name)}
+
+        def post(vw, bad=bad, rec=rec):
+            fw = [c for c in rec.get("calls", []) if c[0] == "unlimit_parameter"]
+            if bad:
+                return [("an unknown parameter name raises ValueError", z3.BoolVal(vw.flow == "raise" and vw.exc == "ValueError")), ("nothing was forwarded to the fitter (no back end is reset)", z3.BoolVal(len(rec.get("calls", [])) == 0))]
+            return [("a known name is forwarded exactly once", z3.BoolVal(vw.flow != "raise" and len(fw) == 1))]
+        body(eng, "FitBase", "unlimit_parameter", None, [], [post], init, tag=f"({name})")
     return eng
 
 
